@@ -67,6 +67,8 @@ def check(run):
     _r2(run, classes)
     _r3(run, classes)
     _r4(run, prog)
+    run.include('C01', {f for f in FILES if f.endswith('.pyx') and '/model/plasma/' in f},
+                'the rates and species a model caches must follow changes of the plasma and the atomic data')
 
 
 # ------------------------------------------------------------------------------------------ R1
